@@ -429,7 +429,11 @@ class OutdoorCrops:
                 )
 
             else:
-                crops_produced = np.array(self.NO_RELOCATION_KCALS_GROWN)
+                # cropland under greenhouses is not also available for outdoor crops
+                crops_produced = np.multiply(
+                    np.array(self.NO_RELOCATION_KCALS_GROWN),
+                    (1 - np.array(greenhouse_fraction_area)),
+                )
 
         else:
             crops_produced = np.array([0] * self.NMONTHS)
